@@ -2,7 +2,7 @@
 import json, os, random
 import flows, flowcheck, storagecheck as sc
 from common import ToolError, save_replay
-from daemon import standard_hooks, Raw
+from daemon import standard_hooks, Raw, toml_dumps
 from scenario import simple_cert
 
 NEEDS = ["acmed"]
@@ -43,6 +43,31 @@ def daemon_specs(tier, seed):
                             "uids": uids, "gids": gids, "umask": um}}
         specs.append(flowcheck.prepare(dict(tag="C13/s%03d" % len(specs), certs=[c], global_opts=g, account_hooks=file_hooks,
                                             steps=[("run", {"attempts": 2, "umask": um})], meta=meta)))
+    # the mode options given in the main file and overridden by included files (the last file that sets an option decides): what
+    # the administrator asked for is what the merged configuration says
+    for k, (main_pk, main_crt, a_pk, a_crt, b_pk, b_crt, um) in enumerate(((0o644, 0o644, 0o600, 0o640, None, None, 0o022),
+                                                                            (None, None, 0o644, 0o644, 0o600, 0o600, 0o022),
+                                                                            (0o640, 0o644, None, None, 0o600, None, 0o027))):
+        def tab(pk, crt):
+            t = {}
+            if pk is not None:
+                t["pk_file_mode"] = Raw("0o%o" % pk)
+            if crt is not None:
+                t["cert_file_mode"] = Raw("0o%o" % crt)
+            return t
+        eff_pk = [x for x in (main_pk, a_pk, b_pk) if x is not None][-1]
+        eff_crt = [x for x in (main_crt, a_crt, b_crt) if x is not None][-1]
+        files = {}
+        for name, t in (("conf.d/10-site.toml", tab(a_pk, a_crt)), ("conf.d/20-host.toml", tab(b_pk, b_crt))):
+            files[name] = toml_dumps({"global": t}) if t else "# nothing here\n"
+        c = simple_cert("i%d" % len(specs))
+        meta = {"family": "daemon files, modes overridden by included files", "umask": um, "effective": ["0o%o" % eff_pk, "0o%o" % eff_crt],
+                "storage": {"modes": {"account": 0o600, "pk": eff_pk, "crt": eff_crt}, "uids": {"account": -1, "pk": -1, "crt": -1},
+                            "gids": {"account": -1, "pk": -1, "crt": -1}, "umask": um}}
+        specs.append(flowcheck.prepare(dict(tag="C13/s%03d" % len(specs), certs=[c], global_opts=tab(main_pk, main_crt), account_hooks=file_hooks,
+                                            include=["conf.d/*.toml"], extra_files=files,
+                                            steps=[("call", lambda s: os.makedirs(os.path.join(s.world.root, "conf.d"), exist_ok=True)), ("run", {"attempts": 2, "umask": um})],
+                                            meta=meta)))
     return specs
 
 
@@ -76,7 +101,7 @@ def run(ctx):
         x = results[i]
         rp = save_replay("C13", os.path.basename(x["tag"]), {"scenario.json": {k: v for k, v in x["meta"].items() if k not in ("flow", "hook_types")},
                                                             "trace.ndjson": os.path.join(x["world"], "trace.ndjson"), "violated.json": {"labels": labs, "event": ev}})
-        ctx.verdict.violation("daemon-created file has the wrong mode/owner: %s in %s" % (json.dumps(ev)[:300], {k: x["meta"][k] for k in ("pk_mode", "cert_mode", "umask", "owner")}), rp)
+        ctx.verdict.violation("daemon-created file has the wrong mode/owner: %s in %s" % (json.dumps(ev)[:300], {k: x["meta"].get(k) for k in ("family", "pk_mode", "cert_mode", "effective", "umask", "owner")}), rp)
     cov = {"states": r["distinct"], "transitions": r["generated"], "traces_validated_against_impl": len(reps_run) + len(results),
            "samples": [reps_run[0], reps_run[-1], {k: results[0]["meta"][k] for k in ("pk_mode", "cert_mode", "umask", "owner")}],
            "grid_states_in_model": len(reps), "grid_states_replayed": len(reps_run), "replay": rstats, "daemon_writes": dstats,
